@@ -33,12 +33,14 @@ CACHE_ATTRS = {"_circuit", "_circuits", "_is_ising", "__orig_class__", "_hash"}
 
 
 class Leaf:
-    """a symbolic leaf inside a snapshot"""
+    """a symbolic leaf inside a snapshot; kind records whether the object is real- or complex-typed (the type of a
+    coefficient is observable: repr, dictionary form)"""
 
-    __slots__ = ("parts",)
+    __slots__ = ("parts", "kind")
 
-    def __init__(self, parts):
+    def __init__(self, parts, kind="real"):
         self.parts = parts  # tuple of z3 terms
+        self.kind = kind
 
 
 def snap(x, depth=0):
@@ -47,7 +49,7 @@ def snap(x, depth=0):
     if isinstance(x, ST.SV):
         return Leaf((ST.zr_real(x),))
     if isinstance(x, ST.CV):
-        return Leaf((ST.zr_real(x.re), ST.zr_real(x.im)))
+        return Leaf((ST.zr_real(x.re), ST.zr_real(x.im)), "complex")
     if isinstance(x, ST.SB):
         return Leaf((x.z,))
     if x is None or isinstance(x, (bool, int, float, complex, str, bytes)):
@@ -81,6 +83,8 @@ def compare(a, b, eqs, path="$"):
     if isinstance(a, Leaf) or isinstance(b, Leaf):
         if not (isinstance(a, Leaf) and isinstance(b, Leaf)) or len(a.parts) != len(b.parts):
             # a concrete number on one side and a symbolic value on the other
+            if isinstance(a, Leaf) and isinstance(b, Leaf):
+                return f"{path}: a {a.kind}-typed value became {b.kind}-typed"
             try:
                 pa = a.parts if isinstance(a, Leaf) else _num_parts(a)
                 pb = b.parts if isinstance(b, Leaf) else _num_parts(b)
@@ -91,6 +95,8 @@ def compare(a, b, eqs, path="$"):
             pb = tuple(pb) + (z3.RealVal(0),) * (n - len(pb))
             eqs.extend(x == y for x, y in zip(pa, pb))
             return None
+        if a.kind != b.kind:
+            return f"{path}: a {a.kind}-typed value became {b.kind}-typed"
         for x, y in zip(a.parts, b.parts):
             if not z3.eq(x, y):
                 eqs.append(x == y)
@@ -388,8 +394,48 @@ def _circuit_scenarios():
     return out
 
 
+def _state_scenarios():
+    """operations that take a STATE VECTOR argument, with the kinds of vector a caller can hand over"""
+    out = []
+
+    def states():
+        import numpy as _np
+
+        return {
+            "complex ndarray": _np.array([0.5, 0.5j, -0.5, 0.5], dtype=complex),
+            "float ndarray": _np.array([0.5, 0.5, -0.5, 0.5]),
+            "list": [0.5, 0.5j, -0.5, 0.5],
+            "symbol array": _np.array([CS.S(f"a{i}") for i in range(4)], dtype=object),
+        }
+
+    for sname in ("complex ndarray", "float ndarray", "list", "symbol array"):
+
+        def build(V, sname=sname):
+            from orquestra.quantum.circuits import MultiPhaseOperation, Circuit
+            from orquestra.quantum.wavefunction import Wavefunction
+
+            st = states()[sname]
+            mpo = MultiPhaseOperation((0.25, -0.5, 1.0, 0.125))
+            objs = {"state": st, "phase_operation": mpo, "gate_operation": CS.op_from_spec(("RY(0.3)|c1", (1, 0))), "symbolic_gate_operation": CS.op_from_spec(("RX(x)", (1,))),
+                    "circuit": Circuit([mpo, CS.op_from_spec(("H", (0,))), MultiPhaseOperation((0.0, 0.5, 0.0, -0.5))])}
+            if sname == "complex ndarray":
+                objs["wavefunction"] = Wavefunction(st.copy())
+            return objs
+
+        def sim(o):
+            from orquestra.quantum.runners.symbolic_simulator import SymbolicSimulator
+
+            src = o["wavefunction"].amplitudes if "wavefunction" in o else o["state"]
+            return SymbolicSimulator().get_wavefunction(o["circuit"], src).amplitudes
+
+        out.append(dict(name=f"MultiPhaseOperation.apply({sname})", engine="E1", build=build, call=lambda o: o["phase_operation"].apply(o["state"])))
+        out.append(dict(name=f"GateOperation.apply({sname})", engine="E1", build=build, call=lambda o: (o["gate_operation"].apply(o["state"]), None if isinstance(o["state"], list) else o["symbolic_gate_operation"].apply(o["state"]))))
+        out.append(dict(name=f"simulator.get_wavefunction(circuit, initial_state={sname})", engine="E1", build=build, call=sim))
+    return out
+
+
 def scenarios():
-    return _ops_scenarios() + _meas_scenarios() + _dist_scenarios() + _wf_scenarios() + _circuit_scenarios()
+    return _ops_scenarios() + _meas_scenarios() + _dist_scenarios() + _wf_scenarios() + _circuit_scenarios() + _state_scenarios()
 
 
 def _env(engine):
